@@ -464,7 +464,8 @@ def split_wrong_scope(case, diags):
     type first (hash order) instead of the declaring schema — finding type-where-resolved-in-importing-scope / fixes/C04-3."""
     if not getattr(case, "multi", False):
         return diags, 0
-    declared = {l.split()[1] for l in case.proto if l.startswith("func ")}
+    declared = {l.split()[1] for l in case.proto if l.startswith("func ")} | \
+               {l.split()[2] for l in case.proto if l.startswith("alg function ")}
     bad_lines = {(d[1], d[2]) for d in diags if d[0] == "UNDEFINED_FUNC" and
                  any(d[3] == f"Function {fn} undefined." for fn in declared)}
     if not bad_lines:
